@@ -43,7 +43,7 @@ def quietBlockB (s : App) (c : CSet) (b : Block) : Bool :=
      -- x/slashing's BeginBlocker punished nobody: nothing but signing infos and bitmaps changed
      decide (s1 = { s with height := s.height + 1, time := s.time + b.dt, infos := s1.infos, bitmap := s1.bitmap }) &&
      s.vals.all (fun v => (alookup v.key s1.infos).isSome)
-   | .error _ => false) && b.evid.isEmpty &&
+   | .error _ => false) && b.evid.isEmpty && b.gov.isEmpty &&
   (match beginState genEnv s b with
    | .ok s2 => quietTxsB b.txs s2 [] && fitsB (runTxs genEnv b.txs s2 [] []).2 c
    | .error _ => true)
@@ -92,7 +92,7 @@ def quietBlock2B (s : App) (c : CSet) (b : Block) : Bool :=
    | .ok s1 =>
      decide (s1 = { s with height := s.height + 1, time := s.time + b.dt, infos := s1.infos, bitmap := s1.bitmap }) &&
      s.vals.all (fun v => (alookup v.key s1.infos).isSome)
-   | .error _ => false) && b.evid.isEmpty &&
+   | .error _ => false) && b.evid.isEmpty && b.gov.isEmpty &&
   (match beginState genEnv s b with
    | .ok s2 => quietTxs2B b.txs s2 [] && fits2B (runTxs genEnv b.txs s2 [] []).2 c
    | .error _ => true)
